@@ -14,7 +14,7 @@ import math
 import re
 
 from ..kernel import Violation, Budget, Discard, SimCrash, DrawCap, feq, cjson
-from ..gen import gen_seq
+from ..gen import gen_seq, same_classes_other_letters
 from ..clock import SimClock, MODES
 from ..rng import RngModule, MTRandom, TapeRandom, UniformDriver
 from ..simfs import SimFS
@@ -47,7 +47,7 @@ ASSUMPTIONS = ["the requested range coincides with the equal partition (binmin=a
                "when run() returns normally every output must agree completely with the model, whether or not a fault was injected; when it fails after an "
                "injected fault (OSError / crash) only prefix-consistency of what is on the simulated disk is required",
                "convergence within the step cap is not required (BUDGET); non-termination of the block/cluster moves is BUDGET"]
-PROBES = ["rerun_on_same_machine", "kappa_above_one_binned_to_top", "stopped_at_f_equal_threshold", "flatcheck_exact_tie", "start_outside_range", "proposal_outside_range_with_u_zero", "u_just_below_P", "u_just_above_P", "accepted_uphill", "rejected_step",
+PROBES = ["prelude_on_related_sequence", "step_decided_without_draw", "rerun_on_same_machine", "kappa_above_one_binned_to_top", "stopped_at_f_equal_threshold", "flatcheck_exact_tie", "start_outside_range", "proposal_outside_range_with_u_zero", "u_just_below_P", "u_just_above_P", "accepted_uphill", "rejected_step",
           "flatcheck_flat", "flatcheck_not_flat", "converged", "step_cap_hit", "hook_assisted", "seam_only", "fs_fault_fired", "crash_fired",
           "restart_into_dirty_dir", "restart_after_crash", "oserror_propagated", "partial_range", "warm_sequence_object", "permutants_api",
           "iteration_ge_3", "same_bin_accept", "multi_bin_visit"]
@@ -103,6 +103,10 @@ def gen_plan(streams, tier):
             fault = {"kind": "eacces", "file": frnd.choice(FILES)}
         else:
             fault = {"kind": "crash", "at": at, "torn": frnd.randrange(0, 40)}
+    prelude = None
+    if rnd.random() < 0.2:
+        # earlier activity in the same process on a *different* sequence with the same numbers of +, - and neutral residues
+        prelude = {"seq": same_classes_other_letters(rnd, seq), "how": rnd.choice(("dmax_perm", "dmax_perm", "kappa", "machine"))}
     restart = frnd.random() < (0.5 if fault["kind"] != "none" else 0.12)
     if restart and frnd.random() < 0.4:
         restart = "same_machine"       # the caller retries run() on the same machine object (e.g. after a transient I/O error)
@@ -112,7 +116,7 @@ def gen_plan(streams, tier):
             "move_rng": rnd.choice(("mt", "tape", "tape", "biased")), "clock_mode": rnd.choice(MODES),
             "accept_policy": rnd.choice(("uniform", "adversarial", "adversarial")),
             "move_weights": [rnd.choice((0, 1, 1, 3)) for _ in range(4)],
-            "step_cap": TIERS[tier]["step_cap"], "fault": fault, "restart": restart}
+            "step_cap": TIERS[tier]["step_cap"], "fault": fault, "restart": restart, "prelude": prelude}
 
 
 def corpus():
@@ -142,6 +146,8 @@ def corpus():
     mk("flatness_ties_crit_0.8", "GKEGKEKEGS", {"M": 2, "a": 0, "b": 2, "flatchk": 5, "flatcrit": 0.8, "c": 0.2}, accept_policy="uniform")
     mk("flatness_ties_crit_0.5", "EKEKGKEGSD", {"M": 3, "a": 0, "b": 3, "flatchk": 6, "flatcrit": 0.5, "c": 0.2}, accept_policy="uniform")
     mk("threshold_equals_f_after_2_roots", "GKEGKEKEGS", {"M": 2, "a": 0, "b": 2, "flatchk": 4, "flatcrit": 0.3, "c": 0.3, "conv_exact_k": 2}, accept_policy="uniform")
+    mk("related_sequence_analysed_first", "GKEGKEKEGS", full, prelude={"seq": "ARDASDRDAT", "how": "dmax_perm"})
+    mk("machine_for_related_sequence_first", "GKEGKEKEGS", full, prelude={"seq": "ARDASDRDAT", "how": "machine"})
     mk("seam_only_mode", "GKEGKEKEGS", full, no_hook=True)
     mk("uniform_policy_many_iterations", "KEKEGG", {"M": 3, "a": 0, "b": 3, "flatchk": 30, "flatcrit": 0.2, "c": 0.05}, accept_policy="uniform",
        move_weights=[1, 1, 0, 0])
@@ -302,7 +308,7 @@ class WLSim(object):
         self.run_no = run_no
         self.rnd = ctx.streams.stream("wl_tape_%d" % run_no)
         self.input_sorted = sorted(plan["seq"])
-        self.pending_move = None
+        self.prop = None              # proposal made by a move and not yet decided
         self.pending_hook = {}
         self.step = None             # info on the step whose u was just drawn
         self.kappa_memo = {}
@@ -316,6 +322,7 @@ class WLSim(object):
         self.rejected_n = 0
         self.bins_visited = set()
         self.started = False
+        self.synced = True
         self.last_flat_info = None
 
     # --- oracles
@@ -341,25 +348,33 @@ class WLSim(object):
         raise Violation(kind, key, "run %d step %d: %s" % (self.run_no, self.model.steps, msg))
 
     # --- callbacks from the seams
+    # Lifecycle of a step: move -> [proposal hook] -> [acceptance draw] -> [booked hook] -> next step.
+    # The number of random draws per step is not part of the statement: an implementation may skip the
+    # acceptance draw when the probability is 0 or 1 (the decision is then deterministic), and may draw
+    # more than one move-selection number.  A WL draw while a proposal is undecided is the acceptance draw;
+    # any other WL draw is a move-selection draw.
     def on_move(self, kind, parent, child):
-        if self.pending_move is not None:
-            raise Discard("two moves without an acceptance draw in between")
-        self.pending_move = (kind, parent, child)
+        if self.prop is not None:
+            self.resolve_without_draw()
+        self.prop = {"kind": kind, "p": parent, "q": child}
         self.ctx.log.emit("move", mv=kind, p=parent, c=child)
 
     def on_hook(self, kind, fields):
         self.hook_seen = True
         self.pending_hook[kind] = dict(fields)
+        if kind == "booked" and self.prop is not None:
+            self.resolve_without_draw()
 
     def wl_random(self, who):
-        if self.pending_move is None:
+        if self.prop is None:
             return self.draw_r()
         return self.draw_u()
 
     # --- r draw: start of a step
     def draw_r(self):
         m = self.model
-        self.sync_after_step()
+        if self.step is not None and not self.synced:
+            self.sync_after_step()
         if m.done:
             self.viol("continued_past_convergence", "stop", "f=%r is at most the threshold %r but another step was started" % (m.f, m.conv))
         if m.steps >= self.plan["step_cap"]:
@@ -385,11 +400,10 @@ class WLSim(object):
         r = min(max(r, 0.0), ONE_MINUS)
         return r
 
-    # --- u draw: the proposal is known, decide acceptance
-    def draw_u(self):
+    # --- the proposal is known: check it against the model and compute the acceptance probability
+    def prepare(self):
         m = self.model
-        kind, p, q = self.pending_move
-        self.pending_move = None
+        kind, p, q = self.prop["kind"], self.prop["p"], self.prop["q"]
         hp = self.pending_hook.pop("proposal", None)
         if hp is not None and not self.started:
             self.use_hook = not self.plan.get("no_hook")
@@ -428,7 +442,20 @@ class WLSim(object):
                     hp["acceptProb"], P, m.g[m.idx], m.g[idx_new], inr))
             if not feq(hp["f"], m.f, 1e-9):
                 self.viol("wrong_f", "f", "modification factor %r, model %r" % (hp["f"], m.f))
-        # choose u
+        return kind, p, q, idx_new, inr, P
+
+    def resolve_without_draw(self):
+        """the implementation went on without asking for an acceptance draw: legitimate only when the
+        probability is 0 or 1, where the decision does not depend on the draw"""
+        kind, p, q, idx_new, inr, P = self.prepare()
+        if 0.0 < P < 1.0:
+            raise Discard("the step was decided without an acceptance draw although 0 < P < 1 (cannot be followed through the RNG seam)")
+        self.ctx.probe("step_decided_without_draw")
+        self.decide(kind, p, q, idx_new, inr, P, 0.0 if P >= 1.0 else ONE_MINUS, "no_draw")
+
+    # --- acceptance draw: choose u, then decide
+    def draw_u(self):
+        kind, p, q, idx_new, inr, P = self.prepare()
         r = self.rnd
         cls = "uniform"
         if self.plan.get("accept_policy") == "adversarial" and r.random() < 0.8:
@@ -454,6 +481,15 @@ class WLSim(object):
         else:
             u = r.random()
         u = min(max(u, 0.0), ONE_MINUS)
+        self.decide(kind, p, q, idx_new, inr, P, u, cls)
+        return u
+
+    def decide(self, kind, p, q, idx_new, inr, P, u, cls):
+        m = self.model
+        if self.step is not None and not self.synced:
+            self.sync_after_step()            # the previous step's records were never compared (no draw since)
+        self.prop = None
+        self.synced = False
         accepted = u < P
         if accepted:
             self.accepted_n += 1
@@ -483,13 +519,13 @@ class WLSim(object):
                 if m.niter >= 3:
                     self.ctx.probe("iteration_ge_3")
         self.ctx.sig(was_in, inr, P < 1.0, accepted, same_bin, (info or {}).get("flat", "-"), min(m.niter, 5), m.M, m.a, m.b)
-        return u
 
     # --- after the step's effects: compare hook records and log rows
     def sync_after_step(self, final=False):
         m = self.model
         st = self.step
         self.in_step = False
+        self.synced = True
         hb = self.pending_hook.pop("booked", None) if self.use_hook else None
         hf = self.pending_hook.pop("flatcheck", None) if self.use_hook else None
         self.pending_hook.clear()
@@ -535,7 +571,9 @@ class WLSim(object):
                 self.viol("wrong_flatness", "flat_schedule", "a flat check ran at step %d, not a multiple of the period %d" % (m.steps, m.flatchk))
             if info is not None and self.use_hook and hf is None and not final:
                 self.viol("wrong_flatness", "flat_schedule", "no flat check ran at step %d although the period is %d" % (m.steps, m.flatchk))
-        self.check_disk(strict=False)
+        # while a proposal is still undecided in the model the implementation may already have written that
+        # step's rows (it did not need a draw): rows beyond the model's are then compared at the next sync
+        self.check_disk(strict=False, allow_extra=self.prop is not None)
         self.step = None if final else st
 
     def observed_glog_growth(self):
@@ -545,7 +583,7 @@ class WLSim(object):
     # --- disk vs model
     def read_new_rows(self, name, peek=False):
         path = self.outdir + "/" + name
-        data = bytes(self.fs.files.get(path, b""))
+        data = self.fs.read_file(path)
         off = self.file_off[name]
         if len(data) < off:
             off = 0
@@ -561,7 +599,7 @@ class WLSim(object):
             self.disk_rows[name].extend(rows)
         return rows
 
-    def check_disk(self, strict):
+    def check_disk(self, strict, allow_extra=False):
         """rows on the simulated disk must be a prefix of the model's rows (never wrong data);
         strict=True (normal return): they must be complete."""
         m = self.model
@@ -569,14 +607,16 @@ class WLSim(object):
             self.read_new_rows(name)
         # hlog: numeric rows = [check#, H local...]; header rows "iter k:"
         hrows = [r for r in self.disk_rows["hlog.txt"] if numeric(r)]
-        self.cmp_rows("hlog", hrows, m.rows["hlog"], strict, exact=True)
+        self.cmp_rows("hlog", hrows, m.rows["hlog"], strict, exact=True, allow_extra=allow_extra)
         iters = [r for r in self.disk_rows["hlog.txt"] if len(r) == 2 and r[0][0].lower() == "iter"]
-        if len(iters) > m.iter_headers:
+        if len(iters) > m.iter_headers and not allow_extra:
             self.viol("log_disagrees", "hlog_iter_headers", "hlog announces %d iterations, the bookkeeping has started %d" % (len(iters), m.iter_headers))
         grows = [r for r in self.disk_rows["glog.txt"] if numeric(r)]
-        self.cmp_rows("glog", grows, m.rows["glog"], strict, exact=False)
+        self.cmp_rows("glog", grows, m.rows["glog"], strict, exact=False, allow_extra=allow_extra)
 
-    def cmp_rows(self, name, disk, model, strict, exact):
+    def cmp_rows(self, name, disk, model, strict, exact, allow_extra=False):
+        if len(disk) > len(model) and allow_extra:
+            disk = disk[:len(model)]
         if len(disk) > len(model):
             self.viol("log_disagrees", name + "_extra_rows", "%s holds %d data rows, the bookkeeping implies %d (last extra row: %r)" % (
                 name, len(disk), len(model), [t for t, _ in disk[len(model)]]))
@@ -599,6 +639,8 @@ class WLSim(object):
     def finish_normal(self, ret):
         import numpy as np
         m = self.model
+        if self.prop is not None:
+            self.resolve_without_draw()
         self.sync_after_step(final=True)
         if not m.done:
             self.viol("stopped_early", "stop", "run() returned after %d steps with f=%r still above the threshold %r" % (m.steps, m.f, m.conv))
@@ -620,14 +662,14 @@ class WLSim(object):
         self.check_increments()
 
     def text(self, name):
-        return bytes(self.fs.files.get(self.outdir + "/" + name, b"")).decode("utf-8", "replace")
+        return self.fs.read_file(self.outdir + "/" + name).decode("utf-8", "replace")
 
     def check_static_files(self, strict):
         m = self.model
         cen = m.centres()
         # DOS files
         for name, idxs in (("DOS.txt", range(m.M)), ("DOS_local.txt", range(m.a, m.b))):
-            present = (self.outdir + "/" + name) in self.fs.files
+            present = self.fs.exists(self.outdir + "/" + name)
             if not present:
                 if strict:
                     self.viol("output_disagrees", name + "_missing", "%s was not written" % name)
@@ -720,22 +762,20 @@ def execute(plan, ctx):
     wl.time = clock
     seqmod.time = clock
     import os
-    import shutil
-    import tempfile
-    fs = SimFS(ctx)
+    fs = SimFS(ctx, prefix="dst_c18_")
     wl.open = fs.open
-    # the log directory exists for real (so that a maintainer's os.path.isdir / makedirs on it behaves as on a
-    # real disk); every byte still goes through the SimFS seam and the random directory name is never logged
-    fs.root = tempfile.mkdtemp(prefix="dst_c18_")
+    # the log directory is real (so that os.path.isdir / makedirs / os.replace / fsync on it behave as on a
+    # real disk); every handle opened through the seam is fault-injected and the random directory name is never logged
     OUTDIR = fs.root + "/wl"
     os.makedirs(OUTDIR)
     try:
         return _execute(plan, ctx, fs, wl, seqmod, permmod, Sequence, SequenceException, clock, OUTDIR)
     finally:
-        shutil.rmtree(fs.root, ignore_errors=True)
+        fs.cleanup()
 
 
 def _execute(plan, ctx, fs, wl, seqmod, permmod, Sequence, SequenceException, clock, OUTDIR):
+    import os
     cur = {"sim": None}
     move_driver = UniformDriver(ctx.streams.stream("move_tape"), bias=0.3 if plan.get("move_rng") == "biased" else 0.0, ctx=ctx)
 
@@ -780,12 +820,24 @@ def _execute(plan, ctx, fs, wl, seqmod, permmod, Sequence, SequenceException, cl
     fault = plan.get("fault", {"kind": "none"})
     first_failed = False
     machine_box = [None]
+    pre = plan.get("prelude")
+    if pre:
+        ctx.probe("prelude_on_related_sequence")
+        rel = Sequence(pre["seq"])
+        if pre["how"] == "kappa":
+            rel.kappa()
+        elif pre["how"] == "machine":
+            os.makedirs(OUTDIR + "_prelude", exist_ok=True)
+            wl.WangLandauMachine(rel, OUTDIR + "_prelude", set(), nbins=2, binmin=0.0, binmax=1.0, flatchk=5, flatcrit=0.5, convergence=math.exp(2.0)).run()
+        else:
+            rel.deltaMax(True)
+        ctx.log.emit("prelude", seq=pre["seq"], how=pre["how"])
     for run_no in range(nruns):
         sim = WLSim(plan, ctx, fs, wl, seqmod, Sequence, run_no)
         cur["sim"] = sim
         fired0 = fs.errors_fired
         fs.faults = []
-        fs.capacity = None
+        fs.set_capacity(None)
         fs.open_faults = {}
         inject = fault["kind"] != "none" and run_no == 0
         if inject:
@@ -795,7 +847,7 @@ def _execute(plan, ctx, fs, wl, seqmod, permmod, Sequence, SequenceException, cl
             elif fault["kind"] == "crash":
                 fs.faults = [{"at": base + fault["at"], "kind": "crash", "torn": fault.get("torn", 0)}]
             elif fault["kind"] == "enospc":
-                fs.capacity = fs.used() + fault["bytes"]
+                fs.set_capacity(fault["bytes"])
             elif fault["kind"] == "eacces":
                 fs.open_faults[OUTDIR + "/" + fault["file"]] = "EACCES"
         if run_no == 1:
